@@ -115,19 +115,21 @@ Proof.
   split; [eexists; vm_compute; reflexivity|]. vm_compute. exact I.
 Qed.
 
-(* NOT repaired: extract_element_fixed_width.  After a Length field, the 2049th digit is written
-   past tag[2048] (2048 digits fill it, without terminator); a tag longer than the Length field's
-   own makes decode read tag[] beyond the bytes written *)
-Lemma c03_fixed_width_refuted_lemma :
-  factory ex_ctx real_caps (fw_digits 2049) false false = OOB site_tag_write /\
-  factory ex_ctx real_caps (fw_digits 2048) false false = OOB site_uninit_tag /\
-  digit_runs_ok MAX_FLD_LENGTH 0 (fw_digits 2047) = true /\ digit_runs_ok MAX_FLD_LENGTH 0 (fw_digits 2049) = false /\
-  factory ex_ctx real_caps fw_uninit false false = OOB site_uninit_tag /\
-  is_bytes (fw_digits 2049) = true /\ is_bytes fw_uninit = true /\ digit_runs_ok MAX_FLD_LENGTH 0 fw_uninit = true.
+(* F06 residue, repaired by ce1e2cc: the ORIGINAL extract_element_fixed_width writes the 2049th digit
+   of a run past tag[2048] and leaves the tag unterminated (decode then reads tag[] beyond the bytes
+   written: after tag "93" the digits "8989" give an unreadable buffer); the repaired one fails the
+   extraction / terminates the tag, and factory is safe on both inputs *)
+Definition digits_tok (n : N) : list N := repeat 57 (N.to_nat n) ++ bytes_of_string "=x|"%string.
+Lemma c03_fixed_width_orig_refuted_lemma :
+  extract_element_fixed_width_orig (digits_tok 2049) (lenN (digits_tok 2049)) 1 MAX_FLD_LENGTH MAX_FLD_LENGTH = XOOB site_tag_write /\
+  extract_element_fixed_width (digits_tok 2049) (lenN (digits_tok 2049)) 1 MAX_FLD_LENGTH MAX_FLD_LENGTH = XFail [] [] /\
+  (exists t v r, extract_element_fixed_width (digits_tok 2047) (lenN (digits_tok 2047)) 1 MAX_FLD_LENGTH MAX_FLD_LENGTH = XOk t v r) /\
+  cstr_known (tagbuf_after_fw_orig [56; 57; 56; 57] (tagbuf_after [57; 51] [])) = None /\
+  cstr_known (tagbuf_after_fw [56; 57; 56; 57] (tagbuf_after [57; 51] [])) = Some [56; 57; 56; 57] /\
+  safe (factory ex_ctx real_caps (fw_digits 2049) false false) /\ safe (factory ex_ctx real_caps fw_uninit false false).
 Proof.
-  split; [vm_compute; reflexivity|]. split; [vm_compute; reflexivity|].
-  split; [vm_compute; reflexivity|]. split; [vm_compute; reflexivity|]. split; [vm_compute; reflexivity|].
-  split; [vm_compute; reflexivity|]. split; vm_compute; reflexivity.
+  split; [vm_compute; reflexivity|]. split; [vm_compute; reflexivity|]. split; [do 3 eexists; vm_compute; reflexivity|].
+  split; [vm_compute; reflexivity|]. split; [vm_compute; reflexivity|]. split; vm_compute; exact I.
 Qed.
 
 (* F07: a Heartbeat with a TestReqID of 9000 bytes: the unbounded encoder produces 9000+ bytes,
@@ -150,30 +152,11 @@ Qed.
 (* ------------------------------------------------------------------ non-vacuity *)
 Definition ex_list_bytes : list N := match msg_encode ex_ctx ex_list with Ok (b, _) => b | _ => [] end.
 
-(* a schema meeting the hypothesis of the no-data theorem: ex_ctx without the Length/data pair of
-   the trailer *)
-Definition safe_allocs : gmeta := GM [ tr 79 15 1 true false false false; tr 80 9 2 false false false false ] [] true.
-Definition safe_orders : gmeta := GM
-  [ tr 11 15 1 true false false false; tr 38 9 2 false false false false; tr 78 5 3 false true false false ]
-  [ (78, safe_allocs) ] true.
-Definition safe_body : gmeta := GM
-  [ tr 55 15 2 false false false false; tr 58 15 4 false false false false; tr 66 15 1 true false false false;
-    tr 73 5 3 false true false false ]
-  [ (73, safe_orders) ] true.
-Definition safe_ctx : ctx := mkCtx (c_fields ex_ctx)
-  [ mkMD [48] true ex_heartbeat; mkMD [69] false safe_body ]
-  ex_header (GM [ tr 10 15 3 false false true true ] [] true)
-  (c_hdr_init ex_ctx) (c_trl_init ex_ctx) (c_begin ex_ctx) render_default.
-
 Lemma c03_nonvacuous_lemma :
   c03_wf ex_ctx = true /\ is_bytes ex_list_bytes = true /\ lenN ex_list_bytes < 4294967296 /\
-  (exists m, factory ex_ctx real_caps ex_list_bytes false false = Ok m) /\
-  c03_wf safe_ctx = true /\ c03_nodata safe_ctx = true /\
-  (exists m, factory safe_ctx real_caps ex_list_bytes false false = Ok m).
+  (exists m, factory ex_ctx real_caps ex_list_bytes false false = Ok m).
 Proof.
   split; [vm_compute; reflexivity|]. split; [vm_compute; reflexivity|]. split; [vm_compute; reflexivity|].
-  split; [eexists; vm_compute; reflexivity|].
-  split; [vm_compute; reflexivity|]. split; [vm_compute; reflexivity|].
   eexists; vm_compute; reflexivity.
 Qed.
 
@@ -225,16 +208,34 @@ Proof.
   split; vm_compute; reflexivity.
 Qed.
 
-(* date/time parsers (new finding): a month 14, a char below '0', a year whose ticks leave int64;
-   a canonical timestamp and the largest month the table holds are fine *)
-Lemma c03_datetime_ub_lemma :
-  dt_ub ft_UTCTimestamp (bytes_of_string "20231401-00:00:00") = Some true /\
-  dt_ub ft_UTCTimestamp (bytes_of_string "2023-101-00:00:00.000") = Some true /\
+(* date/time parsers: before da4ab8c a month 14 indexed mon_days out of bounds and a char below '0'
+   led to a shift of a negative value; both are gone.  What remains is the 64-bit tick product for
+   years far from the epoch. *)
+Lemma c03_datetime_ub_orig_lemma :
+  dt_ub_orig ft_UTCTimestamp (bytes_of_string "20231401-00:00:00") = Some true /\
+  dt_ub ft_UTCTimestamp (bytes_of_string "20231401-00:00:00") = Some false /\
+  dt_ub_orig ft_UTCTimestamp (bytes_of_string "2023-101-00:00:00.000") = Some true /\
+  dt_ub ft_UTCTimestamp (bytes_of_string "2023-101-00:00:00.000") = Some false /\
+  dt_ub_orig ft_LocalMktDate (bytes_of_string "20230001") = Some true /\
+  dt_ub ft_LocalMktDate (bytes_of_string "20230001") = Some false.
+Proof.
+  split; [vm_compute; reflexivity|]. split; [vm_compute; reflexivity|]. split; [vm_compute; reflexivity|].
+  split; [vm_compute; reflexivity|]. split; vm_compute; reflexivity.
+Qed.
+
+Lemma c03_datetime_ticks_lemma :
   dt_ub ft_LocalMktDate (bytes_of_string "99990101") = Some true /\
+  dt_ub ft_UTCTimestamp (bytes_of_string "00000101-00:00:00") = Some true /\
+  dt_ub ft_UTCTimestamp (bytes_of_string "22620101-00:00:00") = Some false /\
+  dt_ub ft_UTCTimestamp (bytes_of_string "16780101-00:00:00") = Some false /\
   dt_ub ft_UTCTimestamp (bytes_of_string "20230101-00:00:00.000") = Some false /\
-  dt_ub ft_UTCTimestamp (bytes_of_string "20391301-00:00:00") = Some false /\
   dt_ub ft_UTCTimestamp (bytes_of_string "2023") = None.
 Proof.
   split; [vm_compute; reflexivity|]. split; [vm_compute; reflexivity|]. split; [vm_compute; reflexivity|].
   split; [vm_compute; reflexivity|]. split; vm_compute; reflexivity.
 Qed.
+
+(* calc_chksum: the misaligned word load (D4) is gone with 9d9ce26 *)
+Lemma c03_chksum_align_orig_lemma :
+  chksum_ub_orig 1 8 = true /\ chksum_ub_orig 4 64 = false /\ forall m l, chksum_ub m l = false.
+Proof. split; [reflexivity|]. split; reflexivity. Qed.
